@@ -495,3 +495,306 @@ Proof.
   - reflexivity.
   - rewrite nth_overflow by lia. rewrite nth_overflow by lia. reflexivity.
 Qed.
+
+(* ---------- the move phase ---------- *)
+Lemma replace_first_spec o nw l : In o l -> ~ In nw l -> NoDup l ->
+  length (replace_first o nw l) = length l /\ NoDup (replace_first o nw l) /\
+  (forall x, In x (replace_first o nw l) <-> x = nw \/ (In x l /\ x <> o)).
+Proof.
+  induction l as [|y l IH]; intros Hin Hnin Hnd; [destruct Hin|].
+  inversion Hnd as [|? ? Hny Hnd']; subst. simpl.
+  destruct (bytes_eqb y o) eqn:E.
+  - apply bytes_eqb_eq in E. subst y. split; [reflexivity|]. split.
+    + constructor; [intros H; apply Hnin; right; exact H|exact Hnd'].
+    + intros x. simpl. split.
+      * intros [<-|H]; [left; reflexivity|right]. split; [right; exact H|]. intros ->. contradiction.
+      * intros [->|[[<-|H] Hne]]; [left; reflexivity|congruence|right; exact H].
+  - apply bytes_eqb_neq in E. destruct Hin as [->|Hin]; [congruence|].
+    destruct (IH Hin (fun H => Hnin (or_intror H)) Hnd') as [A [B C]].
+    split; [simpl; rewrite A; reflexivity|]. split.
+    + constructor; [|exact B]. rewrite C. intros [->|[H _]]; [apply Hnin; left; reflexivity|contradiction].
+    + intros x. simpl. rewrite C. split.
+      * intros [<-|[->|[H Hne]]]; [right; split; [left; reflexivity|exact E]|left; reflexivity|right; split; [right; exact H|exact Hne]].
+      * intros [->|[[<-|H] Hne]]; [right; left; reflexivity|left; reflexivity|right; right; split; assumption].
+Qed.
+Lemma replace_first_hd_same o nw l : hd_error l = Some o -> hd_error (replace_first o nw l) = Some nw.
+Proof. destruct l as [|y l]; simpl; [discriminate|]. intros E; inversion E; subst. rewrite bytes_eqb_refl. reflexivity. Qed.
+Lemma replace_first_hd_other o nw l : hd_error l <> Some o -> hd_error (replace_first o nw l) = hd_error l.
+Proof.
+  destruct l as [|y l]; simpl; [reflexivity|]. intros H.
+  destruct (bytes_eqb y o) eqn:E; [apply bytes_eqb_eq in E; subst; congruence|reflexivity].
+Qed.
+
+Lemma swap_leader_spec nm o rest : nm <> o -> In nm rest -> NoDup (o :: rest) ->
+  let l' := swap_leader nm (o :: rest) in
+  length l' = S (length rest) /\ NoDup l' /\ (forall x, In x l' <-> In x (o :: rest)) /\ hd_error l' = Some nm.
+Proof.
+  intros Hne Hin Hnd. inversion Hnd as [|? ? Hno Hnd']; subst. simpl.
+  assert (bytes_eqb o nm = false) as -> by (apply bytes_eqb_neq; congruence).
+  assert (mem_name nm rest = true) as -> by (apply mem_name_In; exact Hin).
+  destruct (replace_first_spec nm o rest Hin Hno Hnd') as [A [B C]].
+  split; [simpl; rewrite A; reflexivity|]. split.
+  - constructor; [|exact B]. rewrite C. intros [->|[_ H]]; congruence.
+  - split; [|reflexivity]. intros x. simpl. rewrite C.
+    destruct (list_eq_dec N.eq_dec x nm) as [->|Hx]; [tauto|]. intuition congruence.
+Qed.
+
+Lemma upd_part_spec f : forall parts k, k < length parts ->
+  exists parts', upd_part k f parts = Some parts' /\ length parts' = length parts /\
+    forall i, nth i parts' [] = if Nat.eqb i k then f (nth k parts []) else nth i parts [].
+Proof.
+  induction parts as [|x parts IH]; intros k Hk; [simpl in Hk; lia|].
+  destruct k as [|k]; simpl.
+  - eexists. split; [reflexivity|]. split; [reflexivity|]. intros [|i]; reflexivity.
+  - destruct (IH k) as [parts' [E [L Hn]]]; [simpl in Hk; lia|]. rewrite E.
+    eexists. split; [reflexivity|]. split; [simpl; rewrite L; reflexivity|]. intros [|i]; [reflexivity|]. simpl. apply Hn.
+Qed.
+
+Definition Jinv (ring : list (list N)) (p r : nat) (ls : loads) (parts : list (list (list N))) : Prop :=
+  names ls = ring /\ length parts = p /\ Forall (list_ok ring r) parts /\ cons ls (part_at parts).
+
+Lemma cons_update2 ls P a fa b fb pid nl' la lb :
+  cons ls P -> a <> b -> name_pres fa -> name_pres fb -> get a ls = Some la -> get b ls = Some lb ->
+  (forall q, q <> pid -> (In q (nl_rep (fa la)) <-> In q (nl_rep la)) /\ (In q (nl_lead (fa la)) <-> In q (nl_lead la))) ->
+  (forall q, q <> pid -> (In q (nl_rep (fb lb)) <-> In q (nl_rep lb)) /\ (In q (nl_lead (fb lb)) <-> In q (nl_lead lb))) ->
+  (In pid (nl_rep (fa la)) <-> In a nl') -> (In pid (nl_lead (fa la)) <-> hd_error nl' = Some a) ->
+  (In pid (nl_rep (fb lb)) <-> In b nl') -> (In pid (nl_lead (fb lb)) <-> hd_error nl' = Some b) ->
+  (forall x, x <> a -> x <> b -> (In x nl' <-> In x (P pid)) /\ (hd_error nl' = Some x <-> hd_error (P pid) = Some x)) ->
+  cons (upd_node b fb (upd_node a fa ls)) (vupd P pid nl').
+Proof.
+  intros Hc Hab Hfa Hfb Ga Gb Hqa Hqb Hra Hla Hrb Hlb Hoth x l' G q. unfold vupd.
+  destruct (list_eq_dec N.eq_dec x b) as [->|Hxb].
+  - rewrite get_upd_same in G by exact Hfb. rewrite get_upd_other in G by (try exact Hfa; congruence).
+    rewrite Gb in G. simpl in G. inversion G; subst l'.
+    destruct (N.eqb_spec q pid) as [->|Hq]; [split; assumption|].
+    destruct (Hqb q Hq) as [A B]. rewrite A, B. apply Hc. exact Gb.
+  - rewrite get_upd_other in G by assumption.
+    destruct (list_eq_dec N.eq_dec x a) as [->|Hxa].
+    + rewrite get_upd_same in G by exact Hfa. rewrite Ga in G. simpl in G. inversion G; subst l'.
+      destruct (N.eqb_spec q pid) as [->|Hq]; [split; assumption|].
+      destruct (Hqa q Hq) as [A B]. rewrite A, B. apply Hc. exact Ga.
+    + rewrite get_upd_other in G by assumption.
+      destruct (N.eqb_spec q pid) as [->|Hq]; [|apply Hc; exact G].
+      destruct (Hoth x Hxa Hxb) as [A B]. rewrite A, B. apply Hc. exact G.
+Qed.
+
+Lemma Forall_nth_upd {A} (P : A -> Prop) (l l' : list A) d k v :
+  length l' = length l -> (forall i, nth i l' d = if Nat.eqb i k then v else nth i l d) ->
+  Forall P l -> P v -> Forall P l'.
+Proof.
+  intros HL Hn HF Hv. apply Forall_forall. intros x Hx.
+  apply (In_nth _ _ d) in Hx. destruct Hx as [i [Hi <-]]. rewrite Hn.
+  destruct (Nat.eqb i k); [exact Hv|]. rewrite Forall_forall in HF. apply HF. apply nth_In. lia.
+Qed.
+
+Section Move.
+Variable ring : list (list N).
+Hypothesis ring_nd : NoDup ring.
+Hypothesis ring_ne : ring <> [].
+Variables p r : nat.
+
+Lemma part_at_in parts pid x : In x (part_at parts pid) -> N.to_nat pid < length parts.
+Proof.
+  unfold part_at. intros H. destruct (Nat.lt_ge_cases (N.to_nat pid) (length parts)) as [L|L]; [exact L|].
+  rewrite nth_overflow in H by exact L. destruct H.
+Qed.
+
+Lemma part_at_ok parts pid : Forall (list_ok ring r) parts -> N.to_nat pid < length parts -> list_ok ring r (part_at parts pid).
+Proof. intros HF L. rewrite Forall_forall in HF. apply HF. apply nth_In. exact L. Qed.
+
+(* common tail of the three move cases: rewriting one list and two map entries *)
+Lemma move_finish ls parts pid f a fa b fb la lb :
+  Jinv ring p r ls parts -> N.to_nat pid < length parts ->
+  list_ok ring r (f (part_at parts pid)) ->
+  a <> b -> name_pres fa -> name_pres fb -> get a ls = Some la -> get b ls = Some lb ->
+  (forall q, q <> pid -> (In q (nl_rep (fa la)) <-> In q (nl_rep la)) /\ (In q (nl_lead (fa la)) <-> In q (nl_lead la))) ->
+  (forall q, q <> pid -> (In q (nl_rep (fb lb)) <-> In q (nl_rep lb)) /\ (In q (nl_lead (fb lb)) <-> In q (nl_lead lb))) ->
+  (In pid (nl_rep (fa la)) <-> In a (f (part_at parts pid))) ->
+  (In pid (nl_lead (fa la)) <-> hd_error (f (part_at parts pid)) = Some a) ->
+  (In pid (nl_rep (fb lb)) <-> In b (f (part_at parts pid))) ->
+  (In pid (nl_lead (fb lb)) <-> hd_error (f (part_at parts pid)) = Some b) ->
+  (forall x, x <> a -> x <> b -> (In x (f (part_at parts pid)) <-> In x (part_at parts pid)) /\
+      (hd_error (f (part_at parts pid)) = Some x <-> hd_error (part_at parts pid) = Some x)) ->
+  exists parts', upd_part (N.to_nat pid) f parts = Some parts' /\
+     Jinv ring p r (upd_node b fb (upd_node a fa ls)) parts'.
+Proof.
+  intros [Hn [HL [HF Hc]]] Hpid Hok Hab Hfa Hfb Ga Gb Hqa Hqb Hra Hla Hrb Hlb Hoth.
+  destruct (upd_part_spec f parts (N.to_nat pid) Hpid) as [parts' [E [L' Hnth]]].
+  exists parts'. split; [exact E|]. split; [rewrite !names_upd by assumption; exact Hn|].
+  split; [lia|]. split.
+  - eapply Forall_nth_upd; [exact L'|exact Hnth|exact HF|exact Hok].
+  - eapply cons_ext; [|apply (cons_update2 ls (part_at parts) a fa b fb pid (f (part_at parts pid)) la lb); eassumption].
+    intros q. unfold vupd, part_at. rewrite Hnth.
+    destruct (N.eqb_spec q pid) as [->|Hq]; [rewrite Nat.eqb_refl; reflexivity|].
+    assert (N.to_nat q <> N.to_nat pid) by lia. apply Nat.eqb_neq in H. rewrite H. reflexivity.
+Qed.
+
+Lemma record_eq ls m1 m2 : NoDup (names ls) -> In m1 ls -> In m2 ls -> nl_name m1 = nl_name m2 -> m1 = m2.
+Proof.
+  intros Hnd H1 H2 E. pose proof (get_in ls m1 Hnd H1) as G1. pose proof (get_in ls m2 Hnd H2) as G2.
+  rewrite E in G1. congruence.
+Qed.
+
+Theorem move_step_inv ls parts : Jinv ring p r ls parts ->
+  exists ls' parts' b, move_step ls parts = Ok (ls', parts', b) /\ Jinv ring p r ls' parts'.
+Proof.
+  intros HJ. pose proof HJ as [Hn [HL [HF Hc]]].
+  assert (Hndn : NoDup (names ls)) by (rewrite Hn; exact ring_nd).
+  assert (Hlsne : ls <> []) by (intros ->; simpl in Hn; congruence).
+  unfold move_step.
+  destruct (min_by lead_ltb ls) as [mn|] eqn:Emn; [|apply min_by_none in Emn; contradiction].
+  destruct (max_by lead_ltb ls) as [mx|] eqn:Emx; [|apply max_by_none in Emx; contradiction].
+  apply min_by_in in Emn. apply max_by_in in Emx.
+  destruct (Nat.leb (length (nl_lead mx) - length (nl_lead mn)) 1) eqn:Ebal.
+  - (* leaders balanced: replicas *)
+    clear mn mx Emn Emx Ebal.
+    destruct (min_by rep_ltb ls) as [mn|] eqn:Emn; [|apply min_by_none in Emn; contradiction].
+    destruct (max_by rep_ltb ls) as [mx|] eqn:Emx; [|apply max_by_none in Emx; contradiction].
+    apply min_by_in in Emn. apply max_by_in in Emx.
+    destruct (Nat.leb (length (nl_rep mx) - length (nl_rep mn)) 1) eqn:Ebal; [eauto 6|].
+    destruct (find _ (nl_rep mx)) as [pid|] eqn:Ef; [|eauto 6].
+    apply find_some in Ef. destruct Ef as [Hpin Hcond]. apply andb_prop in Hcond. destruct Hcond as [C1 C2].
+    rewrite negb_true_iff in C1, C2. apply in_pids_false in C1, C2.
+    pose proof (get_in ls mn Hndn Emn) as Gmn. pose proof (get_in ls mx Hndn Emx) as Gmx.
+    assert (Hne : nl_name mn <> nl_name mx).
+    { intros E. assert (mn = mx) by (eapply record_eq; eassumption). subst. apply Nat.leb_gt in Ebal. lia. }
+    destruct (Hc _ _ Gmx pid) as [Rx Lx]. destruct (Hc _ _ Gmn pid) as [Rn Ln].
+    assert (Hinx : In (nl_name mx) (part_at parts pid)) by (apply Rx; exact Hpin).
+    assert (Hpid : N.to_nat pid < length parts) by (eapply part_at_in; exact Hinx).
+    destruct (part_at_ok parts pid HF Hpid) as [PL [PN PI]].
+    assert (Hninn : ~ In (nl_name mn) (part_at parts pid)) by (rewrite <- Rn; exact C1).
+    assert (Hhdx : hd_error (part_at parts pid) <> Some (nl_name mx)) by (rewrite <- Lx; exact C2).
+    destruct (replace_first_spec (nl_name mx) (nl_name mn) (part_at parts pid) Hinx Hninn PN) as [A [B C]].
+    pose proof (replace_first_hd_other (nl_name mx) (nl_name mn) (part_at parts pid) Hhdx) as Hhd.
+    destruct (move_finish ls parts pid (replace_first (nl_name mx) (nl_name mn))
+                (nl_name mn) (set_rep (nl_rep mn ++ [pid])) (nl_name mx) (set_rep (remove_pid pid (nl_rep mx))) mn mx)
+      as [parts' [E HJ']]; try assumption; auto with np.
+    + split; [lia|]. split; [exact B|]. intros x Hx. apply C in Hx. destruct Hx as [->|[Hx _]]; [|apply PI; exact Hx].
+      rewrite <- Hn. apply in_map. exact Emn.
+    + intros q Hq. simpl. rewrite in_app_single. intuition congruence.
+    + intros q Hq. simpl. rewrite in_remove_pid. intuition congruence.
+    + simpl. rewrite in_app_single, C. tauto.
+    + simpl. rewrite Hhd. rewrite Ln. split; [intros H; exfalso|intros H; exfalso]; apply Hninn.
+      * destruct (part_at parts pid); [discriminate|]. inversion H; subst. left; reflexivity.
+      * destruct (part_at parts pid); [discriminate|]. inversion H; subst. left; reflexivity.
+    + simpl. rewrite in_remove_pid, C. split; [intros [_ H]; congruence|intros [H|[_ H]]; congruence].
+    + simpl. rewrite Hhd. rewrite Lx. tauto.
+    + intros x Hxa Hxb. rewrite Hhd, C. split; [|tauto]. intuition congruence.
+    + rewrite E. eauto 6.
+  - (* leaders unbalanced *)
+    destruct (find _ (nl_lead mx)) as [pid|] eqn:Ef; [|eauto 6].
+    apply find_some in Ef. destruct Ef as [Hpin C1]. rewrite negb_true_iff in C1. apply in_pids_false in C1.
+    pose proof (get_in ls mn Hndn Emn) as Gmn. pose proof (get_in ls mx Hndn Emx) as Gmx.
+    assert (Hne : nl_name mn <> nl_name mx).
+    { intros E. assert (mn = mx) by (eapply record_eq; eassumption). subst. apply Nat.leb_gt in Ebal. lia. }
+    destruct (Hc _ _ Gmx pid) as [Rx Lx]. destruct (Hc _ _ Gmn pid) as [Rn Ln].
+    assert (Hhdx : hd_error (part_at parts pid) = Some (nl_name mx)) by (apply Lx; exact Hpin).
+    destruct (part_at parts pid) as [|o rest] eqn:EP; [discriminate|]. simpl in Hhdx. inversion Hhdx; subst o.
+    assert (Hinx : In (nl_name mx) (part_at parts pid)) by (rewrite EP; left; reflexivity).
+    assert (Hpid : N.to_nat pid < length parts) by (eapply part_at_in; exact Hinx).
+    destruct (part_at_ok parts pid HF Hpid) as [PL [PN PI]]. rewrite EP in PL, PN, PI.
+    assert (Hhdn : hd_error (nl_name mx :: rest) <> Some (nl_name mn)) by (simpl; congruence).
+    destruct (in_pids pid (nl_rep mn)) eqn:Eex.
+    + (* exchange the leader with an existing replica *)
+      apply in_pids_In in Eex.
+      assert (Hinn : In (nl_name mn) rest).
+      { apply Rn in Eex. destruct Eex as [E|H]; [congruence|exact H]. }
+      destruct (swap_leader_spec (nl_name mn) (nl_name mx) rest Hne Hinn PN) as [A [B [C D]]].
+      destruct (move_finish ls parts pid (swap_leader (nl_name mn))
+                  (nl_name mn) (set_lead (nl_lead mn ++ [pid])) (nl_name mx) (set_lead (remove_pid pid (nl_lead mx))) mn mx)
+        as [parts' [E HJ']]; try assumption; auto with np; rewrite ?EP.
+      * split; [simpl in PL; lia|]. split; [exact B|]. intros x Hx. apply C in Hx. apply PI. exact Hx.
+      * intros q Hq. simpl. rewrite in_app_single. intuition congruence.
+      * intros q Hq. simpl. rewrite in_remove_pid. intuition congruence.
+      * simpl nl_rep. rewrite C. rewrite Rn. tauto.
+      * simpl nl_lead. rewrite in_app_single, D. tauto.
+      * simpl nl_rep. rewrite C. rewrite Rx. tauto.
+      * simpl nl_lead. rewrite in_remove_pid, D. split; [intros [_ H]; congruence|intros H; inversion H; congruence].
+      * intros x Hxa Hxb. rewrite C, D. split; [tauto|]. simpl. split; intros H; inversion H; congruence.
+      * rewrite E. eauto 6.
+    + (* move the leader replica to the least loaded node *)
+      apply in_pids_false in Eex.
+      assert (Hninn : ~ In (nl_name mn) (nl_name mx :: rest)) by (rewrite <- Rn; exact Eex).
+      assert (Hinx' : In (nl_name mx) (nl_name mx :: rest)) by (left; reflexivity).
+      destruct (replace_first_spec (nl_name mx) (nl_name mn) (nl_name mx :: rest) Hinx' Hninn PN) as [A [B C]].
+      pose proof (replace_first_hd_same (nl_name mx) (nl_name mn) (nl_name mx :: rest) eq_refl) as Hhd.
+      assert (Hrepx : In pid (nl_rep mx)) by (apply Rx; exact Hinx').
+      destruct (move_finish ls parts pid (replace_first (nl_name mx) (nl_name mn))
+                  (nl_name mn) (fun l => set_lead (nl_lead mn ++ [pid]) (set_rep (nl_rep mn ++ [pid]) l))
+                  (nl_name mx) (fun l => set_lead (remove_pid pid (nl_lead mx)) (set_rep (remove_pid pid (nl_rep mx)) l)) mn mx)
+        as [parts' [E HJ']]; try assumption; auto with np; rewrite ?EP.
+      * split; [lia|]. split; [exact B|]. intros x Hx. apply C in Hx. destruct Hx as [->|[Hx _]]; [|apply PI; exact Hx].
+        rewrite <- Hn. apply in_map. exact Emn.
+      * intros q Hq. simpl. rewrite !in_app_single. intuition congruence.
+      * intros q Hq. simpl. rewrite !in_remove_pid. intuition congruence.
+      * simpl nl_rep. rewrite in_app_single, C. tauto.
+      * simpl nl_lead. rewrite in_app_single, Hhd. tauto.
+      * simpl nl_rep. rewrite in_remove_pid, C. split; [intros [_ H]; congruence|intros [H|[_ H]]; congruence].
+      * simpl nl_lead. rewrite in_remove_pid, Hhd. split; [intros [_ H]; congruence|intros H; inversion H; congruence].
+      * intros x Hxa Hxb. rewrite Hhd, C. split; [intuition congruence|].
+        simpl. split; intros H; inversion H; congruence.
+      * rewrite E. revert HJ'. destruct (nl_rep mx) eqn:Erx; [destruct Hrepx|]. intros HJ'. eauto 6.
+Qed.
+
+Theorem move_loop_inv : forall fuel ls parts, Jinv ring p r ls parts ->
+  exists parts', move_loop fuel ls parts = Ok parts' /\ length parts' = p /\ Forall (list_ok ring r) parts'.
+Proof.
+  induction fuel as [|fuel IH]; intros ls parts HJ.
+  - exists parts. destruct HJ as [_ [HL [HF _]]]. split; [reflexivity|]. split; assumption.
+  - simpl. destruct (move_step_inv ls parts HJ) as [ls' [parts' [b [E HJ']]]]. rewrite E.
+    destruct b; [|apply IH; exact HJ'].
+    exists parts'. destruct HJ' as [_ [HL [HF _]]]. split; [reflexivity|]. split; assumption.
+Qed.
+End Move.
+
+(* ---------- V2 as a whole ---------- *)
+Theorem fill_v2_valid h p r olds ring :
+  NoDup ring -> ~ In [] ring -> ring <> [] -> r <= length ring ->
+  length olds <= p -> Forall (fun o => length o <= r /\ NoDup o) olds ->
+  exists l, fill_v2 h p r olds ring = Ok l /\ valid_layout ring p r l.
+Proof.
+  intros Hnd Hne Hrn Hr Hlo Hok. unfold fill_v2.
+  destruct (v2_fill_phase_ok h p r olds ring Hnd Hne Hr Hlo Hok) as [ls [parts [E [Hn [HL [HF Hc]]]]]].
+  rewrite E.
+  destruct (move_loop_inv ring Hnd Hrn p r (r * p + 1) ls parts) as [parts' [E' [HL' HF']]].
+  { split; [exact Hn|]. split; [exact HL|]. split; assumption. }
+  exists parts'. split; [exact E'|]. split; [exact HL'|]. exact HF'.
+Qed.
+
+(* ---------- V2 through the entry point ---------- *)
+Definition olds_ok (p r : nat) (olds : list (list (list N))) : Prop :=
+  length olds <= p /\ Forall (fun o => length o <= r /\ NoDup o) olds.
+
+Theorem rebalance_v2_valid ver ns p r olds nodes :
+  is_v2 ver = true -> NoDup (map fst nodes) -> ~ In [] (map fst nodes) -> nodes <> [] ->
+  (r <= N.of_nat (length nodes))%N -> olds_ok (N.to_nat p) (N.to_nat r) olds ->
+  exists l, rebalance ver ns p r olds nodes = Ok l /\ valid_layout (map fst nodes) (N.to_nat p) (N.to_nat r) l.
+Proof.
+  intros Hv Hnd Hne Hnn Hr [Hlo Hok]. rewrite rebalance_unfold by assumption. cbv zeta. rewrite Hv.
+  destruct (ring_facts nodes Hnd) as [P [Hndr HL]].
+  set (ring := ring_of_lists (node_name_list nodes)) in *.
+  destruct (fill_v2_valid (murmur3_32 ns) (N.to_nat p) (N.to_nat r) olds ring) as [l [E V]]; try assumption.
+  - intros H. apply Hne. eapply Permutation_in; [symmetry; exact P|exact H].
+  - intros H. rewrite H in HL. simpl in HL. destruct nodes; [congruence|simpl in HL; lia].
+  - rewrite HL. lia.
+  - exists l. split; [exact E|]. eapply valid_layout_perm; [symmetry; exact P|exact V].
+Qed.
+
+(* both algorithms: a layout is produced and it is valid *)
+Theorem rebalance_valid ver ns p r olds nodes :
+  NoDup (map fst nodes) -> ~ In [] (map fst nodes) -> nodes <> [] ->
+  (r <= N.of_nat (length nodes))%N -> olds_ok (N.to_nat p) (N.to_nat r) olds ->
+  exists l, rebalance ver ns p r olds nodes = Ok l /\ valid_layout (map fst nodes) (N.to_nat p) (N.to_nat r) l.
+Proof.
+  intros. destruct (is_v2 ver) eqn:Ev; [apply rebalance_v2_valid|apply rebalance_v1_valid]; assumption.
+Qed.
+
+Theorem rebalance_refuse_iff' ver ns p r olds nodes :
+  NoDup (map fst nodes) -> ~ In [] (map fst nodes) -> nodes <> [] -> olds_ok (N.to_nat p) (N.to_nat r) olds ->
+  (rebalance ver ns p r olds nodes = Refuse <-> (N.of_nat (length nodes) < r)%N).
+Proof.
+  intros Hnd Hne Hnn Hok. split.
+  - intros E. destruct (N.lt_ge_cases (N.of_nat (length nodes)) r) as [L|L]; [exact L|].
+    destruct (rebalance_valid ver ns p r olds nodes) as [l [E' _]]; try assumption. congruence.
+  - apply rebalance_refuse_iff. exact Hnd.
+Qed.
